@@ -10,7 +10,7 @@ from dissect.cobaltstrike import beacon
 from dissect.cobaltstrike.beacon import (BeaconConfig, BeaconGateOptions, beacon_gate_options_string, parse_beacon_gate,
                                           parse_execute_list, parse_gargle, SETTING_TO_PRETTYFUNC, BeaconSetting)
 
-N = 300 if TIER == "quick" else 20000
+N = 1000 if TIER == "quick" else 20000
 # ---- execute list
 ex = Component("parse_execute_list", "random lists over the 8 executors; module/function names over printable ASCII (1-12 chars), "
                "offsets 0..0xffff; NUL padding of the names; terminator / end of data; " + str(N) + " lists")
